@@ -155,6 +155,9 @@ def _mi(t, case, rng):
         if float(np.min(first)) == float(np.max(first)):
             return t.result(nontrivial=False, sig='degenerate_window', sample=dict(case=case))
     with np.errstate(all='ignore'):
+        if rng.random() < 0.5:
+            obj.compute()                       # an earlier request for the result must leave the counts as they are
+            t.count('computes_before_the_judged_one')
         got = np.asarray(obj.compute(), dtype=float)
     held_edges = np.asarray(obj.bin_edges, dtype=float)
     val, bins = oracles.mutual_information(x, data, declared, held_edges)
@@ -328,6 +331,25 @@ def _validation(t, case, rng):
             t.check(False, 'non_increasing_edges_accepted', dict(edges=bad))
         except (ValueError, TypeError):
             t.check(True, '')
+    # the same, handed over as numpy arrays of narrow integer / float dtypes (differences of unsigned or 8-bit edges wrap around):
+    # decreasing equally spaced, saw-tooth with a constant step modulo 2^k - all must be refused
+    for dt, bad in (('uint8', [200, 150, 100, 50]), ('uint16', [3000, 2000, 1000, 0]), ('uint8', [0, 100, 200, 44, 144]), ('int8', [-100, 20, -116, 4]),
+                    ('int16', [30000, 10000, -10000, -30000]), ('float32', [3.0, 2.0, 1.0]), ('uint8', [10, 10, 10]), ('int64', [5, 4, 3, 2])):
+        t.count('nonuniform_lists')
+        try:
+            construct(np.array(bad, dtype=dt), int(rng.integers(3)))
+            t.check(False, 'non_increasing_edges_accepted', dict(edges=bad, dtype=dt))
+        except (ValueError, TypeError):
+            t.check(True, '')
+    # ... and increasing equally spaced ones in those dtypes must be accepted (the step itself may exceed the positive range of the dtype)
+    for dt, good in (('int8', [-100, 100]), ('int8', [-128, 0, 127 + 1 - 1 - 127 + 127][0:2] + [127]) if False else ('int8', [-100, 0, 100]), ('uint8', [0, 85, 170, 255]),
+                     ('int16', [-30000, 0, 30000]), ('uint16', [0, 30000, 60000]), ('float32', [0.0, 0.5, 1.0, 1.5])):
+        t.count('uniform_lists')
+        try:
+            o = construct(np.array(good, dtype=dt), int(rng.integers(3)))
+            t.check(np.array_equal(np.asarray(o.bin_edges, dtype=float), np.array(good, dtype=float)), 'held_edges_differ_from_configured', lambda: dict(configured=good, dtype=dt))
+        except (ValueError, TypeError) as e:
+            t.check(False, 'uniform_edges_refused', dict(kind='narrow dtype array', edges=good, dtype=dt, error=str(e)))
     for _ in range(40):
         kind, edges = _uniform(rng)
         how = int(rng.integers(3))
